@@ -47,8 +47,15 @@ struct Library {
   }
 };
 
-constexpr uintptr_t VSBX_BASE0 = 0x6a0000000000ull;
-constexpr uintptr_t VSBX_STRIDE = 0x400000000ull; // 16 GiB between slots
+// (overridable: under ThreadSanitizer only part of the address space may be mapped by the program)
+#ifndef VSBX_BASE0_ADDR
+#  define VSBX_BASE0_ADDR 0x6a0000000000ull
+#endif
+#ifndef VSBX_STRIDE_BYTES
+#  define VSBX_STRIDE_BYTES 0x400000000ull // 16 GiB between slots
+#endif
+constexpr uintptr_t VSBX_BASE0 = VSBX_BASE0_ADDR;
+constexpr uintptr_t VSBX_STRIDE = VSBX_STRIDE_BYTES;
 
 // which address slots are in use (process-wide; the harness is single threaded unless stated)
 inline bool g_slot_used[64];
